@@ -59,7 +59,7 @@ CHECKS = {
     "C09": ("TLC-enumerated histories of Call/Convert/Redefine steps on shared objects (Lifecycle.tla) replayed on the real code; ContractTrace "
             "invariants C09 (no user code runs during Redefine) and C09twin (history without its Redefine steps behaves identically)",
             "Every history up to the bound is replayed on ONE set of real objects; histories containing Redefine are replayed again without those "
-            "steps on fresh objects and TLC demands identical executions and results phase by phase; plus random Redefine scenarios.", "DESIGN.md C09"),
+            "steps on fresh objects and TLC demands identical executions and results phase by phase; plus random Redefine scenarios and call scenarios whose values and converters are all NewFunc defaults (option-less Redefine, then option-less Call).", "DESIGN.md C09"),
     "C10": ("TLA+ Contract invariant C10 on convert/call pairs (Convert and Call of func(T) T on identically built object sets) + Resolver model",
             "Seeded random pairs over concrete and interface target types; TLC checks value/nil/assignability/label of Convert's result and the "
             "agreement of success with the call twin on well-behaved converter sets.", "DESIGN.md C10"),
